@@ -57,9 +57,10 @@ TEXT['C12'] = dict(
     text=('Unbounded proof (tree dialect: parameter values as finite maps over string keys, arbitrary nesting) that adjust_nested_dict '
           'overrides exactly the named known keys, recursively, adds no key and warns once per unknown key; that the chunk snapshot is '
           'the global adjusted by the per-call values in a fresh object; that reset_prms restores exactly the packaged values of all / the '
-          'named parameters whatever the global held.  Frame proof that every processing step reads parameters only through the chunk '
-          'snapshot and that set_prms goes through the same merge.  Equality of whole runs through the three routes and the YAML route of '
-          'set_prms are checked by a bounded native run (labelled bounded).'),
+          'named parameters whatever the global held; that set_prms applies the same merge to the global with the content of the file; lemma: '
+          'the merge determines its result, so the three routes give equal snapshots.  Frame proof that every processing step reads parameters only through the chunk '
+          'snapshot and that set_prms goes through the same merge.  Equality of whole runs through the three routes is checked by a bounded native '
+          'run (labelled bounded).'),
     design_ref='DESIGN.md section 4 (C12)', note='Trusted: A-FRAME, A-TREE (dictionaries are finite trees; deepcopy / YAML load return independent trees), ruamel.yaml; bounded part never counted as proved.',
     technique='contract-based deductive verification: recursive contract over a map model of nested dicts (z3, key universals instantiated per path) + frame contracts + bounded run-time check of the route equivalence')
 TEXT['C13'] = dict(
